@@ -22,6 +22,8 @@ HISTORY = [
     ("for-loop", "low_rom", "*=0x008000\n.for i := 0, 4 {\n.db i\n}\n"),
     ("table", "low_rom", "TABLE"),
     ("unmapped", "low_rom", "*=0x700000\nnop\n"),
+    # a large but ordinary source (about 24 000 tokens): whatever the assembler tunes process-wide for it (interpreter limits ...) must not outlive it
+    ("big-table", "low_rom", "*=0x008000\n" + "".join(".db " + ", ".join(str((r * 7 + c) % 256) for c in range(8)) + "\n" for r in range(1500))),
 ]
 PROBES = [
     ("uses-undefined-macro", "low_rom", "*=0x008000\nload_imm(0x12)\n"),
@@ -33,6 +35,8 @@ PROBES = [
     ("scope-export", "low_rom", "*=0x008000\n.dw lib.entry\n"),
     ("text-without-table", "low_rom", "*=0x008000\n.text 'ab'\n"),
     ("plain", "low_rom", "*=0x00FFFE\nlda #0x12\nsta.l 0x7E0000\nrts\n"),
+    # a terminating recursion 400 applications deep: beyond the interpreter's default recursion limit, so it fails -- alone and after any history alike
+    ("deep-recursion", "low_rom", "*=0x008000\n.macro down(n) {\n.db n & 0xFF\n.if n {\ndown(n - 1)\n}\n}\ndown(400)\n"),
 ]
 
 
@@ -49,6 +53,8 @@ def observe(src, rom, tbl=None):
     import re
     # object addresses inside a repr (`<... object at 0x7f...>`) are not part of the assembly's result
     err = re.sub(r" at 0x[0-9a-fA-F]+", " at 0x?", (res["error"] or res["exc"] or ""))[:160]
+    if "recursion" in err.lower():
+        err = "RecursionError"  # which call happens to hit the interpreter's limit is not part of the result
     return {"status": res["status"], "blocks": hexblocks(res["blocks"]), "symbols": syms, "error": err}
 
 
@@ -164,7 +170,7 @@ def run(tier, seed):
     for _ in range(120 if tier == "thorough" else 25):
         cases.append({"history": [rng.randrange(len(HISTORY)) for _ in range(rng.randint(2, 5))], "probe": rng.randrange(len(PROBES))})
     if tier != "thorough":
-        cases = [c for i, c in enumerate(cases) if len(c["history"]) > 1 or (i * 7 + seed) % 3 == 0 or HISTORY[c["history"][0]][0] in ("macro-def", "custom-map", "custom-map-2", "macro-def-then-fail")]
+        cases = [c for i, c in enumerate(cases) if len(c["history"]) > 1 or (i * 7 + seed) % 3 == 0 or HISTORY[c["history"][0]][0] in ("macro-def", "custom-map", "custom-map-2", "macro-def-then-fail", "big-table")]
     failures = []
     for c in cases:
         f = check(c)
@@ -175,7 +181,7 @@ def run(tier, seed):
         failures.append({"ident": "bounded/file-api-histories-and-hash-seeds", "script": "b_C19.py", "payload": {"files": True}, "observed": f})
     return {"evaluations": len(cases) + 5, "distinct_nontrivial": len({json.dumps(c) for c in cases}) + 5,
             "rule": "a probe with relative .incbin / .include / .include_ips (overlapping records) through the FILE API, alone under three hash seeds and after sources "
-                    "assembled from another directory (valid / failing); every probe after every single earlier assembly (11 kinds: macro / symbol / table / custom .map definitions, failures part-way, "
+                    "assembled from another directory (valid / failing); every probe after every single earlier assembly (12 kinds: macro / symbol / table / custom .map definitions, failures part-way, a 24 000-token source, "
                     "HiROM) and seeded histories of 2-5 assemblies, in one process, vs the probe alone in a fresh process; probe run twice (repeatability); "
                     "compares status, blocks, all symbol values and the error text",
             "samples": cases[:2], "failures": failures}
